@@ -69,7 +69,8 @@ func read(buf *bytes.Reader, v interface{}, size uint16) error {
 		}
 		*v = time.Unix(tS, int64(tNs)).UTC()
 	case *[]Message:
-		for s := buf.Len() - int(size); buf.Len() > s; {
+		s := buf.Len() - int(size)
+		for buf.Len() > s {
 			var (
 				m   *Message
 				err error
@@ -78,6 +79,9 @@ func read(buf *bytes.Reader, v interface{}, size uint16) error {
 				return fmt.Errorf("unexpected error reading data frame %d: %w", len(*v)+1, err)
 			}
 			*v = append(*v, *m)
+		}
+		if buf.Len() != s {
+			return fmt.Errorf("data frame %d exceeds the declared length %d: %w", len(*v), size, ErrRscpDataLimitExceeded)
 		}
 	}
 	return nil
